@@ -33,7 +33,7 @@ MANIFEST = {
             "sync RPC handlers are covered by the skeleton/fan-out classification only (no peer network in the harness). Trusted: Coq "
             "kernel + vm_compute, translate/skeletons, Go race detector, harness, Python glue.",
 }
-SCENARIOS = ["cache", "bulk", "certpool", "events", "diffdb"]
+SCENARIOS = ["cache", "bulk", "torn", "certpool", "events", "evclose", "evquit", "diffdb", "syncfan"]
 
 
 def run_scenario(ck, binp, name, readers, ms, rounds, tag):
@@ -64,7 +64,9 @@ def run_scenario(ck, binp, name, readers, ms, rounds, tag):
                 key = "c20:%s:mismatch:%s" % (name, d["sub"])
                 what = "%s returned %s for request %s, sequential answer %s (lost/duplicated items)" % (d["sub"], d.get("got"), d.get("req"), d.get("want"))
             else:
-                key, what = "c20:%s:check" % name, "scenario %s failed: %s" % (name, r.get("what", "")[:400])
+                w = r.get("what", "")
+                m = re.match(r"([a-z][a-z-]+): ", w)
+                key, what = "c20:%s:%s" % (name, m.group(1) if m else "check"), "scenario %s failed: %s" % (name, w[:400])
             f = dict(kind="schedule", key=key, what=what, case=dict(params, record=r, details=details),
                      expected="no hang, no panic, multiset equality with the sequential answer", observed=r.get("what", ""),
                      theorem_or_correspondence="harness/cmd/c20 scenario %s (-race) vs Conc/Progress + Conc/SharedAppend" % name)
